@@ -893,7 +893,7 @@ def run(ctx):
     elk = vlib.build_elk()
 
     # ---- c02.sub
-    vlib.value_stream(ctx, SUB, h, m, ctx.n(1200, 60000), sub_key,
+    vlib.value_stream(ctx, SUB, h, m, ctx.n(1200, 20000), sub_key,
                       "seeded type pairs over Int Float String bool Bool nil any never true false, int/float/string literal "
                       "types, t?, a|b (depth <= 3; tau drawn independently or as a widening/narrowing mutation of sigma, "
                       "both directions); observable = the real checker accepts `def f(y: sigma); var x: tau = y; end` "
@@ -910,7 +910,7 @@ def run(ctx):
         fam = fam[:40]      # the Int? and Int|String|nil contexts; the thorough tier runs all of them
     gen = []
     dist = {}
-    nprog = ctx.n(45, 5000)
+    nprog = ctx.n(45, 400)
     for i in range(nprog):
         g = Gen(rng, flow=(i % 3 == 2))
         p = g.program()
